@@ -166,57 +166,6 @@ def run_formula(name, text, env, acc, do_consequence):
         v = check_read(g, by_addr, formula, addr)
         if v:
             acc.violation(dict(case, verdict=v[0], reader=v[2], read=addr), f'={text}: ' + v[1])
-    reads = []
-    for formula, addr in reads:
-        reader = formula.cell
-        raddr = reader.address.address if reader is not None else None
-        if reader is None or addr in W.ERRORS:
-            continue      # an error value passed where a reference was expected reads nothing
-        declared = [a.address for a in formula.needed_addresses]
-        ok_decl = addr in declared
-        if not ok_decl:
-            cells = addr_cells(addr)
-            for d in declared:
-                dc = addr_cells(d)
-                if cells and dc and cells <= dc:
-                    ok_decl = True
-                    break
-                if cells and dc is None and unbounded_contains(d, cells):
-                    ok_decl = True
-                    break
-        if not ok_decl:
-            acc.violation(dict(case, verdict='read-not-declared', reader=raddr, read=addr, declared=declared),
-                          f'={text}: {raddr} read {addr}, which is not among its declared precedents {declared}')
-            continue
-        rn, pn = by_addr.get(raddr), by_addr.get(addr)
-        if rn is None:
-            acc.violation(dict(case, verdict='reader-not-in-graph', reader=raddr, read=addr),
-                          f'={text}: reader {raddr} is not a node of the dependency graph')
-            continue
-        has_edge = pn is not None and g.has_edge(pn, rn)
-        if not has_edge:
-            # through a range node that contains the cell
-            cells = addr_cells(addr)
-            for pred in g.predecessors(rn):
-                pc = addr_cells(pred.address.address)
-                if cells and pc and cells <= pc:
-                    has_edge = True
-                    break
-                if cells and pc is None and unbounded_contains(pred.address.address, cells):
-                    has_edge = True
-                    break
-        if not has_edge:
-            acc.violation(dict(case, verdict='edge-missing', reader=raddr, read=addr),
-                          f'={text}: {raddr} read {addr} but the graph has no edge {addr} -> {raddr}')
-            continue
-        # a range that is read must itself be fed by its member cells (or, for an array formula, its own precedents)
-        if pn is not None and ':' in addr and not getattr(pn, 'formula', None):
-            cells = addr_cells(addr) or set()
-            preds = {p.address.address for p in g.predecessors(pn)}
-            missing = sorted(c for c in cells if c not in preds)
-            if missing:
-                acc.violation(dict(case, verdict='range-member-edge-missing', reader=raddr, read=addr, missing=missing),
-                              f'={text}: range {addr} is read by {raddr} but has no edge from its member cells {missing}')
     if not do_consequence:
         return
     # ---- consequence: non-ancestors cannot influence F6
